@@ -339,8 +339,8 @@ func opDeleteEnumValue(e *Editor, ws *Workspace) (*Edit, bool) {
 	var sites []site
 	for _, er := range enumSites(ws, nil) {
 		for i, v := range er.Enum.Values {
-			if i == 0 {
-				continue // keep the first (zero) value
+			if i == 0 || v.Number == er.Enum.Values[0].Number {
+				continue // keep the first (zero) value and its aliases
 			}
 			sites = append(sites, site{er, v})
 		}
@@ -349,31 +349,71 @@ func opDeleteEnumValue(e *Editor, ws *Workspace) (*Edit, bool) {
 		return nil, false
 	}
 	s := sites[e.pick("site", len(sites))]
-	variant := e.intn("reservation", 0, 3)
-	resNum, resName := variant&1 != 0, variant&2 != 0
-	var vals []*EnumValue
+	// the number goes away: every name of it (allow_alias) is deleted
+	var vals, gone []*EnumValue
 	for _, v := range s.er.Enum.Values {
-		if v != s.v {
+		if v.Number != s.v.Number {
 			vals = append(vals, v)
+		} else {
+			gone = append(gone, v)
 		}
+	}
+	resNum := e.pick("reservenumber", 2) == 0
+	// names: none, all, or (with aliases) only some of them reserved
+	resNames := e.pick("reservenames", 3)
+	if len(gone) == 1 && resNames == 2 {
+		resNames = e.pick("reservename", 2)
 	}
 	s.er.Enum.Values = vals
 	e.bury(s.er.Enum.ID, s.v.Number)
+	// allow_alias without any alias left does not compile
+	nums := map[int32]int{}
+	aliased := false
+	for _, v := range vals {
+		nums[v.Number]++
+		aliased = aliased || nums[v.Number] > 1
+	}
+	if !aliased {
+		s.er.Enum.Options = DelOption(s.er.Enum.Options, "allow_alias")
+	}
 	if resNum {
 		s.er.Enum.ReservedRanges = append(s.er.Enum.ReservedRanges, Range{s.v.Number, s.v.Number})
 	}
-	if resName {
-		s.er.Enum.ReservedNames = append(s.er.Enum.ReservedNames, s.v.Name)
+	nReserved := 0
+	switch resNames {
+	case 1:
+		for _, v := range gone {
+			s.er.Enum.ReservedNames = append(s.er.Enum.ReservedNames, v.Name)
+		}
+		nReserved = len(gone)
+	case 2:
+		skip := e.pick("unreservedname", len(gone))
+		for i, v := range gone {
+			if i != skip {
+				s.er.Enum.ReservedNames = append(s.er.Enum.ReservedNames, v.Name)
+				nReserved++
+			}
+		}
 	}
 	rules := []string{"ENUM_VALUE_NO_DELETE"}
-	if !resName {
+	if nReserved < len(gone) {
 		rules = append(rules, "ENUM_VALUE_NO_DELETE_UNLESS_NAME_RESERVED")
 	}
 	if !resNum {
 		rules = append(rules, "ENUM_VALUE_NO_DELETE_UNLESS_NUMBER_RESERVED")
 	}
-	return &Edit{Op: "delete-enum-value", Desc: fmt.Sprintf("delete value %s=%d of %s (reserve number=%v name=%v)", s.v.Name, s.v.Number, s.er.Full, resNum, resName),
-		Rules: rules, File: s.er.File.Path, ElemID: s.er.Enum.ID, Mention: []string{numStr(s.v.Number), s.v.Name}}, true
+	op := "delete-enum-value"
+	mention := []string{numStr(s.v.Number)}
+	var names []string
+	for _, v := range gone {
+		names = append(names, v.Name)
+		mention = append(mention, v.Name)
+	}
+	if len(gone) > 1 {
+		op = "delete-aliased-enum-value"
+	}
+	return &Edit{Op: op, Desc: fmt.Sprintf("delete value %s=%d of %s (reserve number=%v, %d of %d names reserved)", strings.Join(names, "/"), s.v.Number, s.er.Full, resNum, nReserved, len(gone)),
+		Rules: rules, File: s.er.File.Path, ElemID: s.er.Enum.ID, Mention: mention}, true
 }
 
 func opDeleteMessage(e *Editor, ws *Workspace) (*Edit, bool) {
@@ -1639,11 +1679,30 @@ var BreakingOps = []BreakingOp{
 
 // ApplyBreaking tries operators starting at a drawn index until one applies.
 func (e *Editor) ApplyBreaking(ws *Workspace) *Edit {
+	// a few independent uniform draws first: an operator's share then follows its own applicability instead of
+	// inheriting the share of inapplicable operators listed before it
+	for try := 0; try < 6; try++ {
+		if ed, ok := BreakingOps[e.pick("op", len(BreakingOps))].Apply(e, ws); ok {
+			return ed
+		}
+	}
 	start := e.pick("op", len(BreakingOps))
 	for k := 0; k < len(BreakingOps); k++ {
 		op := BreakingOps[(start+k)%len(BreakingOps)]
 		if ed, ok := op.Apply(e, ws); ok {
 			return ed
+		}
+	}
+	return nil
+}
+
+// ApplyBreakingNamed applies the named catalogue operator, or returns nil if it has no applicable site.
+func (e *Editor) ApplyBreakingNamed(ws *Workspace, name string) *Edit {
+	for _, op := range BreakingOps {
+		if op.Name == name {
+			if ed, ok := op.Apply(e, ws); ok {
+				return ed
+			}
 		}
 	}
 	return nil
